@@ -44,6 +44,7 @@ ASSUMPTIONS = ['none on the histories: relate / unrelate / delete are applied to
                'ids come from xtuml.IntegerGenerator; each class has at most one own unique_id attribute']
 CHUNK = 3000
 CASE_TIMEOUT_S = 20
+BUDGET_S = {"quick": 240, "thorough": 1800}
 
 
 def setup(ctx):
@@ -145,7 +146,7 @@ def _generate(ctx):
     for name, schema in mc.SHAPES.items():
         pre = prelude(schema, 2)
         alpha = alphabet(schema, 2)
-        if len(alpha) ** depth > ctx.pick(12000, 1500000):
+        if len(alpha) ** depth > ctx.pick(12000, 800000):
             # too wide for the full product: full product of the shorter depth, sampled extension
             rng = ctx.rng.fork('exh', name)
             for seq in itertools.product(alpha, repeat=depth - 1):
